@@ -32,8 +32,12 @@ pub struct Cfg {
     pub min_delay_ms: u64,
     pub threshold_ms: u64,
     pub idle_ms: u64,
-    /// (minimum_delay_secs, maximum_delay_secs, factor); jitter is always 0
+    /// (minimum_delay_secs, maximum_delay_secs, factor)
     pub backoff: (f32, f32, f32),
+    /// jitter_secs of the failure backoff (drawn by the manager from its own RNG: no assertion
+    /// depends on the drawn value)
+    #[serde(default)]
+    pub jitter: f32,
     pub issue_cache: usize,
     pub dedup_ms: u64,
     pub swap_thr: f32,
@@ -49,6 +53,7 @@ impl Cfg {
             threshold_ms: 300_000,
             idle_ms: 120_000,
             backoff: (60.0, 300.0, 1.5),
+            jitter: 0.0,
             issue_cache: 100,
             dedup_ms: 10_000,
             swap_thr: 0.5,
@@ -61,7 +66,7 @@ impl Cfg {
             min_refetch_delay: Duration::from_millis(self.min_delay_ms),
             min_expiry_threshold: Duration::from_millis(self.threshold_ms),
             max_idle_period: Duration::from_millis(self.idle_ms),
-            fetch_failure_backoff: (self.backoff.0, self.backoff.1, self.backoff.2, 0.0),
+            fetch_failure_backoff: (self.backoff.0, self.backoff.1, self.backoff.2, self.jitter),
             issue_cache_size: self.issue_cache,
             issue_broadcast_size: 10,
             issue_deduplication_window: Duration::from_millis(self.dedup_ms),
@@ -476,8 +481,19 @@ impl<'w> Sim<'w> {
         match outcome {
             FetchOutcome::Failure => ensure!(d <= fail_bound, "refetch-later-than-backoff-ceiling",
                 "failed fetch #{} at {} ms: next_refetch is {} ns later; ceiling max(backoff max {} s, min delay {} ms)", self.model.consecutive_failures, ms(t), d, self.cfg.backoff.1, self.cfg.min_delay_ms),
-            FetchOutcome::Success => ensure!(d <= ok_bound, "refetch-later-than-interval",
-                "successful fetch at {} ms: next_refetch is {} ns later; refetch_interval {} ms", ms(t), d, self.cfg.refetch_ms),
+            FetchOutcome::Success => {
+                ensure!(d <= ok_bound, "refetch-later-than-interval",
+                    "successful fetch at {} ms: next_refetch is {} ns later; refetch_interval {} ms", ms(t), d, self.cfg.refetch_ms);
+                // "min_expiry_threshold: minimum remaining expiry before refetching paths": the
+                // refetch comes no later than threshold before the EARLIEST expiry among the
+                // paths the manager holds (unless the min delay forbids it)
+                if let Some(earliest_s) = self.drv.cached_paths(t).iter().filter_map(|c| c.expiration).min() {
+                    let until = (earliest_s as i128 - world::BASE as i128) * 1_000_000_000 - msn(self.cfg.threshold_ms) - ns_of(t) as i128;
+                    ensure!(d <= until.max(msn(self.cfg.min_delay_ms)), "refetch-later-than-earliest-expiry-minus-threshold",
+                        "successful fetch at {} ms: next_refetch is {} ns later, but the earliest cached expiry is at {} s (threshold {} ms, min delay {} ms)",
+                        ms(t), d, earliest_s as i128 - world::BASE as i128, self.cfg.threshold_ms, self.cfg.min_delay_ms);
+                }
+            }
             FetchOutcome::SuccessAllExpired => ensure!(d <= ok_bound.max(fail_bound), "refetch-later-than-interval-and-ceiling",
                 "fetch (only expired paths) at {} ms: next_refetch is {} ns later", ms(t), d),
         }
@@ -588,12 +604,12 @@ impl<'w> Sim<'w> {
                     // path is inside the expiry threshold): the real task would spin as fast as
                     // fetches complete; modelled as one more tick per second
                     self.hot_loop = true;
-                    let t = self.now + Duration::from_secs(1);
-                    if t > target {
+                    let t = (self.now + Duration::from_secs(1)).min(target);
+                    if t == self.now || self.maintains >= TICK_BUDGET {
                         break;
                     }
-                    self.now = t;
                     same_instant = 0;
+                    self.maintain_at(t)?;
                     continue;
                 }
             } else {
@@ -743,6 +759,9 @@ impl<'w> Sim<'w> {
                 }
             }
             None => {
+                if self.focus == Focus::C06 {
+                    self.check_starvation(now_ms);
+                }
                 if self.focus == Focus::C05 && self.drv.initialized() {
                     // no path => the caller gets an error; after a fetch without any
                     // policy-conform path it is also recorded
@@ -755,6 +774,41 @@ impl<'w> Sim<'w> {
             }
         }
         Ok(())
+    }
+
+    /// C06 "while at least one valid path is known for the pair a sender is never left without
+    /// one", at EVERY send: nothing was handed out, so no path the manager itself still holds
+    /// in its cache (truncation / eviction cannot matter) may be unexpired (whole-second rule).
+    fn check_starvation(&mut self, now_ms: i64) {
+        self.evals += 1;
+        let live: Vec<(i64, f32)> = self
+            .drv
+            .cached_paths(self.now)
+            .iter()
+            .filter_map(|c| c.expiration.map(|e| ((e as i64 - world::BASE as i64) * 1000, c.score)))
+            .filter(|(e, _)| *e > now_ms)
+            .collect();
+        if live.is_empty() {
+            return;
+        }
+        // why is the worker behind? (signature = shape of the situation, not of the numbers)
+        let slot_expired = self.drv.active_fingerprint().is_some();
+        let next_ns = self.drv.next_refetch().duration_since(world::at(0)).map(|d| d.as_nanos() as i128).unwrap_or(0);
+        let last_ns = self.last_fetch_ms.unwrap_or(0) as i128 * 1_000_000;
+        // (last_fetch_ms is truncated to the millisecond)
+        let clamped = next_ns - last_ns <= (self.cfg.min_delay_ms as i128 + 1) * 1_000_000;
+        let sig = if !slot_expired {
+            "sender-starved-though-unexpired-path-cached:slot-empty"
+        } else {
+            match self.model.last_outcome {
+                Some(FetchOutcome::Failure) => "sender-starved-though-unexpired-path-cached:active-expired-while-backing-off",
+                _ if clamped => "sender-starved-though-unexpired-path-cached:active-expired-before-min-refetch-delay",
+                _ => "sender-starved-though-unexpired-path-cached:active-expired-before-scheduled-refetch",
+            }
+        };
+        self.defer(Fail::new(sig, format!(
+            "send at {now_ms} ms gets no path although the manager caches {} unexpired path(s) (expiries ms/score {:?}); active slot {}, last fetch at {:?} ms ({:?}), next refetch at {} ms, failed_attempts {}",
+            live.len(), live, if slot_expired { "holds an expired path" } else { "is empty" }, self.last_fetch_ms, self.model.last_outcome, next_ns / 1_000_000, self.drv.failed_attempts())));
     }
 
     /// C05: policy, endpoints, provenance of a handed-out path.
